@@ -47,6 +47,7 @@ def main():
     ap.add_argument("--what", default="")
     ap.add_argument("--skip-suite", action="store_true")
     a = ap.parse_args()
+    a.patch = str(pathlib.Path(a.patch).resolve())
     wt = pathlib.Path(f"/tmp/neutralwt-{a.nid}")
     sh(f"git -C {REPO} worktree remove --force {wt}")
     code, out = sh(f"git -C {REPO} worktree add -q --detach {wt} HEAD")
